@@ -1,4 +1,5 @@
 mod actors;
+mod direct;
 mod algebra;
 mod explorer;
 mod graphs;
@@ -37,6 +38,7 @@ fn main() {
             arg(&args, "--n").and_then(|s| s.parse().ok()).unwrap_or(2000),
         ),
         "explorer" => explorer::main_explorer(&inp, &out),
+        "orl_direct" => direct::main_orl_direct(&inp, &out),
         "matches" => graphs::main_matches(&out),
         "market" => market::main_market(&inp, &out),
         "testers" => testers::main_testers(&inp, &out),
